@@ -7,7 +7,9 @@ From Coq Require Import List NArith Bool.
 Import ListNotations.
 From RX.Model Require Import Base Stream Builder Parse.
 From RX.Spec Require Import Text.
-From RX.Proofs Require Import TextMachine.
+From Coq Require Import PeanoNat.
+From RX.Model Require Import Tokenizer Doc.
+From RX.Proofs Require Import TextMachine TextMerge.
 Open Scope N_scope.
 
 Theorem C04_text_chunks_decode_partial :
@@ -53,3 +55,72 @@ Theorem C04_process_text_with_decode_top :
   process_text_with text pc t r c = text_result r c (decode_chunks cs).
 Proof. exact process_text_with_decode_top. Qed.
 Print Assumptions C04_process_text_with_decode_top.
+
+
+(* ---- one Text node per run: the after_text protocol of the builder (Proofs/TextMerge.v) ---- *)
+Theorem C04_fragments_merge :
+  forall text t0 ts r c c0 c1 c2,
+  c_after_text c = [] ->
+  append_text t0 r c = Ok c0 ->                 (* the first fragment appends the node *)
+  append_texts ts r c0 = Ok c1 ->               (* further fragments of the same run *)
+  reset_after_text text c1 = Ok c2 ->
+  len_N (d_nodes (c_doc c2)) = len_N (d_nodes (c_doc c)) + 1 /\
+  c_after_text c2 = [] /\
+  (forall i, i < len_N (d_nodes (c_doc c)) -> nth_N (d_nodes (c_doc c2)) i = nth_N (d_nodes (c_doc c0)) i) /\
+  exists nd st, nth_N (d_nodes (c_doc c2)) (len_N (d_nodes (c_doc c))) = Some nd /\ nd_kind nd = KText st /\
+     storage_bytes text st = concat (map (cow_bytes text) (t0 :: ts)) /\
+     (* links and range of the node are those given by append_node for the first fragment *)
+     (exists nd0, nth_N (d_nodes (c_doc c0)) (len_N (d_nodes (c_doc c))) = Some nd0 /\
+        nd_parent nd = nd_parent nd0 /\ nd_prev_sibling nd = nd_prev_sibling nd0 /\
+        nd_next_subtree nd = nd_next_subtree nd0 /\ nd_last_child nd = nd_last_child nd0 /\ nd_range nd = nd_range nd0).
+Proof. exact fragments_merge. Qed.
+Print Assumptions C04_fragments_merge.
+
+Theorem C04_fragments_merge_ranges :
+  forall text t0 r0 ts c c0 c1 c2,
+  c_after_text c = [] ->
+  append_text t0 r0 c = Ok c0 ->
+  append_texts_r ts c0 = Ok c1 ->
+  reset_after_text text c1 = Ok c2 ->
+  len_N (d_nodes (c_doc c2)) = len_N (d_nodes (c_doc c)) + 1 /\
+  c_after_text c2 = [] /\
+  (forall i, i < len_N (d_nodes (c_doc c)) ->
+             nth_N (d_nodes (c_doc c2)) i = nth_N (d_nodes (c_doc c0)) i) /\
+  exists nd st, nth_N (d_nodes (c_doc c2)) (len_N (d_nodes (c_doc c))) = Some nd /\
+     nd_kind nd = KText st /\
+     storage_bytes text st = concat (map (cow_bytes text) (t0 :: map fst ts)) /\
+     (exists nd0, nth_N (d_nodes (c_doc c0)) (len_N (d_nodes (c_doc c))) = Some nd0 /\
+        nd_parent nd = nd_parent nd0 /\ nd_prev_sibling nd = nd_prev_sibling nd0 /\
+        nd_next_subtree nd = nd_next_subtree nd0 /\ nd_last_child nd = nd_last_child nd0 /\
+        nd_range nd = nd_range nd0 /\ nd_range nd = r0).
+Proof. exact fragments_merge_ranges. Qed.
+Print Assumptions C04_fragments_merge_ranges.
+
+Theorem C04_append_text_continuation :
+  forall t r c, c_after_text c <> [] ->
+  exists c', append_text t r c = Ok c' /\ d_nodes (c_doc c') = d_nodes (c_doc c) /\
+             c_after_text c' = c_after_text c ++ [t].
+Proof. exact append_text_continuation. Qed.
+Print Assumptions C04_append_text_continuation.
+
+Theorem C04_single_fragment_storage :
+  forall text t r c c0 c2, c_after_text c = [] ->
+  append_text t r c = Ok c0 -> reset_after_text text c0 = Ok c2 ->
+  exists nd, nth_N (d_nodes (c_doc c2)) (len_N (d_nodes (c_doc c))) = Some nd /\
+    nd_kind nd = KText (match t with CowBorrowed s => Borrowed (SIn s) | CowOwned bs => Owned bs end).
+Proof. exact single_fragment_storage. Qed.
+Print Assumptions C04_single_fragment_storage.
+
+Theorem C04_reset_after_text_safe :
+  forall text c,
+  (c_after_text c <> [] -> exists nd st, hd_error (rev (d_nodes (c_doc c))) = Some nd /\ nd_kind nd = KText st) ->
+  exists c', reset_after_text text c = Ok c'.
+Proof. exact reset_after_text_safe. Qed.
+Print Assumptions C04_reset_after_text_safe.
+
+Theorem C04_process_cdata_spec :
+  forall text txt r c,
+  process_cdata text txt r c =
+  append_text (if mem_b 13 (slice_bytes text txt) then CowOwned (Text.norm_eol (slice_bytes text txt)) else CowBorrowed txt) r c.
+Proof. exact process_cdata_spec. Qed.
+Print Assumptions C04_process_cdata_spec.
